@@ -103,6 +103,9 @@ def replay_merge(case, upto, recs=None):
         op = op_of(item)
         if op.name == "client_new":
             m = Merge()
+        elif op.name in ("consumer_build", "producer_build") and op.args[0].name == "from_hosts":
+            m = Merge()                 # a fresh client that loads the metadata of all topics
+            m.response(static_body(case["cluster"], []))
         elif op.name == "reset_metadata":
             m.reset()
         elif op.name in ("load_metadata_all", "load_metadata"):
